@@ -26,8 +26,9 @@ import re
 from collections import Counter
 
 from ..astutil import first_stmt, last_stmt  # noqa: F401
-from ..astutil import (MUTATING_METHODS, ancestors, call_name, calls_in, guards_of, norm,
-                       single_def_value, stmt_of, stores_to, walk_no_nested)
+from ..astutil import (MUTATING_METHODS, ancestors, assigned_names, call_name, calls_in, conjuncts, const_value,
+                       guards_of, local_defs, norm, real_body, single_def_value, stmt_of, stores_to,
+                       tuple_def_component, walk_no_nested)
 from ..cfg import CFG
 from ..loader import dotted_name
 from ..resolve import closure, resolve_call
@@ -133,179 +134,1230 @@ def rule_pure(ctx):
             ctx.floor(f'C14-R1/{cls.name}', found, 2, f'mutations reachable from {cls.name}.to_sql')
 
 
+# ------------------------------------------------------ expanded view -----
+# The condition builders are analysed on an *expanded view* of each function: a private copy of the (already
+# normalised) function in which
+#   * a `for` loop or comprehension over a literal table (tuple / list / dict literal, `.items()`, `zip(...)`,
+#     `enumerate(...)` of literals, or a never-mutated local bound once to one) is unrolled, the loop variables
+#     replaced by the elements of each row,
+#   * a statement-call of a helper that pushes onto a list of its caller (a nested closure, a method or a module
+#     function that appends to a parameter / free variable and returns nothing) is replaced by the helper's body,
+#   * guard clauses `if c: continue` / `if c: return` inside those become `if c: ... else: <rest>`,
+#   * `getattr(x, '<literal>')`, f-strings with literal fields and `'a' + 'b'` are folded.
+# Every rule below that asks "which value is tested / pushed with which text" reads the view, so that a table-driven
+# loop, four closure calls and four hand-written `if` blocks are one and the same thing to it.
+_SINGLETONS = (ast.expr_context, ast.operator, ast.unaryop, ast.cmpop, ast.boolop)
+_DEFS = (ast.FunctionDef, ast.AsyncFunctionDef, ast.ClassDef, ast.Lambda)
+_COMPS = (ast.ListComp, ast.SetComp, ast.GeneratorExp, ast.DictComp)
+_MAX_ROWS = 64
+
+
+def _clone(n, env=None):
+    """structural copy without the loader's parent links; loads of names bound in env become copies of the
+    bound expression"""
+    if isinstance(n, list):
+        return [_clone(x, env) for x in n]
+    if not isinstance(n, ast.AST) or isinstance(n, _SINGLETONS):
+        return n
+    if env and isinstance(n, ast.Name) and isinstance(n.ctx, ast.Load) and n.id in env:
+        return _clone(env[n.id])
+    if env:
+        bound = set()
+        if isinstance(n, (ast.Lambda, ast.FunctionDef, ast.AsyncFunctionDef)):
+            a = n.args
+            bound = {x.arg for x in a.posonlyargs + a.args + a.kwonlyargs}
+            bound |= {x.arg for x in (a.vararg, a.kwarg) if x is not None}
+        elif isinstance(n, _COMPS):
+            bound = {x for g in n.generators for x in assigned_names(g.target)}
+        if bound & set(env):
+            env = {k: v for k, v in env.items() if k not in bound}
+    new = type(n)()
+    for f in n._fields:
+        if hasattr(n, f):
+            setattr(new, f, _clone(getattr(n, f), env))
+    for a in n._attributes:
+        if hasattr(n, a):
+            setattr(new, a, getattr(n, a))
+    return new
+
+
+def _set_parents(root):
+    for p in ast.walk(root):
+        for ch in ast.iter_child_nodes(p):
+            if not isinstance(ch, _SINGLETONS):
+                ch._parent = p  # type: ignore[attr-defined]
+    return root
+
+
+def _is_str(e):
+    return isinstance(e, ast.Constant) and isinstance(e.value, str)
+
+
+class _Fold(ast.NodeTransformer):
+    def visit_JoinedStr(self, n):
+        self.generic_visit(n)
+        parts = []
+        for v in n.values:
+            if isinstance(v, ast.FormattedValue) and v.conversion == -1 and v.format_spec is None and _is_str(v.value):
+                v = v.value
+            if _is_str(v) and parts and _is_str(parts[-1]):
+                parts[-1] = ast.copy_location(ast.Constant(parts[-1].value + v.value), parts[-1])
+            else:
+                parts.append(v)
+        if all(_is_str(v) for v in parts):
+            return ast.copy_location(ast.Constant(''.join(v.value for v in parts)), n)
+        n.values = parts
+        return n
+
+    def visit_BinOp(self, n):
+        self.generic_visit(n)
+        if isinstance(n.op, ast.Add) and _is_str(n.left) and _is_str(n.right):
+            return ast.copy_location(ast.Constant(n.left.value + n.right.value), n)
+        return n
+
+    def visit_Subscript(self, n):
+        self.generic_visit(n)
+        if _is_str(n.value) and isinstance(n.ctx, ast.Load):
+            sl = n.slice
+            try:
+                if isinstance(sl, ast.Slice):
+                    b = [None if x is None else const_value(x) for x in (sl.lower, sl.upper, sl.step)]
+                    if all(x is None or isinstance(x, int) for x in b) and \
+                            all((x is None) == (y is None) for x, y in zip(b, (sl.lower, sl.upper, sl.step))):
+                        return ast.copy_location(ast.Constant(n.value.value[slice(*b)]), n)
+                elif isinstance(const_value(sl), int):
+                    return ast.copy_location(ast.Constant(n.value.value[const_value(sl)]), n)
+            except (IndexError, ValueError):
+                pass
+        return n
+
+    def visit_Call(self, n):
+        self.generic_visit(n)
+        if isinstance(n.func, ast.Name) and n.func.id == 'getattr' and len(n.args) == 2 and not n.keywords \
+                and _is_str(n.args[1]) and n.args[1].value.isidentifier():
+            return ast.copy_location(ast.Attribute(value=n.args[0], attr=n.args[1].value, ctx=ast.Load()), n)
+        return n
+
+
+def _jumps(stmts, kinds, loop_scoped=True):
+    """does the block contain a break/continue of *its own* loop (or, loop_scoped=False, any return/yield)?"""
+    st = list(stmts)
+    while st:
+        x = st.pop()
+        if isinstance(x, kinds):
+            return True
+        if isinstance(x, _DEFS):
+            continue
+        if loop_scoped and isinstance(x, (ast.For, ast.AsyncFor, ast.While)):
+            st.extend(x.orelse)
+            continue
+        st.extend(ast.iter_child_nodes(x))
+    return False
+
+
+def _guard_to_else(stmts, kind):
+    """`if c: ...; continue` followed by rest  ==>  `if c: ... else: rest` (kind=Return: a bare `return` of a helper)"""
+    out = []
+    for i, s in enumerate(stmts):
+        last = s.body[-1] if isinstance(s, ast.If) and s.body else None
+        if isinstance(last, kind) and getattr(last, 'value', None) is None:
+            new = ast.If(test=s.test, body=list(s.body[:-1]) or [ast.copy_location(ast.Pass(), s)],
+                         orelse=_guard_to_else(list(s.orelse) + list(stmts[i + 1:]), kind))
+            out.append(ast.copy_location(new, s))
+            return out
+        if isinstance(s, kind) and getattr(s, 'value', None) is None:
+            return out  # what follows is dead
+        out.append(s)
+    return out
+
+
+def _stable_value(fn, e):
+    """e itself, or for a local bound exactly once and never mutated in place, the expression it is bound to"""
+    if not isinstance(e, ast.Name):
+        return e
+    v = single_def_value(fn, e.id)
+    if v is None:
+        return None
+    for x in ast.walk(fn):
+        if isinstance(x, ast.Call) and isinstance(x.func, ast.Attribute) and x.func.attr in MUTATING_METHODS \
+                and isinstance(x.func.value, ast.Name) and x.func.value.id == e.id:
+            return None
+        if isinstance(x, ast.Subscript) and isinstance(x.ctx, (ast.Store, ast.Del)) and isinstance(x.value, ast.Name) \
+                and x.value.id == e.id:
+            return None
+    return v
+
+
+def _tuple_of(elts, at):
+    return ast.copy_location(ast.Tuple(elts=list(elts), ctx=ast.Load()), at)
+
+
+def _rows(fn, it, depth=0):
+    """the rows of a literal table, in iteration order, or None"""
+    it = _stable_value(fn, it)
+    if it is None or depth > 3:
+        return None
+    if isinstance(it, (ast.Tuple, ast.List)):
+        return None if any(isinstance(x, ast.Starred) for x in it.elts) else list(it.elts)
+    if isinstance(it, ast.Dict):
+        return None if any(k is None for k in it.keys) else list(it.keys)
+    if isinstance(it, ast.Call) and not it.keywords and not any(isinstance(a, ast.Starred) for a in it.args):
+        f = it.func
+        if isinstance(f, ast.Attribute) and not it.args and f.attr in ('items', 'keys', 'values'):
+            d = _stable_value(fn, f.value)
+            if isinstance(d, ast.Dict) and all(k is not None for k in d.keys):
+                if f.attr == 'keys':
+                    return list(d.keys)
+                if f.attr == 'values':
+                    return list(d.values)
+                return [_tuple_of([k, v], k) for k, v in zip(d.keys, d.values)]
+            return None
+        if isinstance(f, ast.Name) and f.id in ('list', 'tuple', 'iter') and len(it.args) == 1:
+            return _rows(fn, it.args[0], depth + 1)
+        if isinstance(f, ast.Name) and f.id == 'reversed' and len(it.args) == 1:
+            r = _rows(fn, it.args[0], depth + 1)
+            return None if r is None else list(reversed(r))
+        if isinstance(f, ast.Name) and f.id == 'zip' and it.args:
+            cols = [_rows(fn, a, depth + 1) for a in it.args]
+            if any(c is None for c in cols):
+                return None
+            return [_tuple_of(r, it) for r in zip(*cols)]
+        if isinstance(f, ast.Name) and f.id == 'enumerate' and 1 <= len(it.args) <= 2:
+            r = _rows(fn, it.args[0], depth + 1)
+            start = 0
+            if len(it.args) == 2:
+                start = const_value(it.args[1])
+                if not isinstance(start, int):
+                    return None
+            if r is None:
+                return None
+            return [_tuple_of([ast.copy_location(ast.Constant(start + i), x), x], x) for i, x in enumerate(r)]
+    return None
+
+
+def _bind(target, row, env) -> bool:
+    if isinstance(target, ast.Name):
+        env[target.id] = row
+        return True
+    if isinstance(target, (ast.Tuple, ast.List)) and isinstance(row, (ast.Tuple, ast.List)) \
+            and len(target.elts) == len(row.elts) \
+            and not any(isinstance(x, ast.Starred) for x in list(target.elts) + list(row.elts)):
+        return all(_bind(t, r, env) for t, r in zip(target.elts, row.elts))
+    return False
+
+
+def _root_name(e):
+    while isinstance(e, (ast.Attribute, ast.Subscript)):
+        e = e.value
+    return e.id if isinstance(e, ast.Name) else None
+
+
+def _pushes_to_caller(fnode, params) -> bool:
+    """the function appends to a list that is not its own: a parameter or a variable of the enclosing scope"""
+    for x in walk_no_nested(fnode):
+        r = None
+        if isinstance(x, ast.Call) and isinstance(x.func, ast.Attribute) and x.func.attr in ('append', 'extend', 'insert'):
+            r = _root_name(x.func.value)
+        elif isinstance(x, ast.AugAssign) and isinstance(x.op, ast.Add):
+            r = _root_name(x.target)
+        if r is None or r in ('self', 'cls'):
+            continue
+        if r in params or not local_defs(fnode, r):
+            return True
+    return False
+
+
+class _Expander:
+    def __init__(self, prog, fi):
+        self.prog = prog
+        self.fi = fi
+        self.fn = _clone(fi.node)
+        self.budget = 800
+
+    def run(self):
+        fn = self.fn
+        fn.body = self.block(fn.body)
+        _CompUnroll(fn).visit(fn)
+        ast.fix_missing_locations(fn)
+        _set_parents(fn)
+        from ..loader import FunctionInfo
+        return FunctionInfo(self.fi.qualname, fn, self.fi.module, self.fi.cls)
+
+    def block(self, stmts, depth=0):
+        out = []
+        for s in stmts:
+            u = None
+            if depth < 5 and isinstance(s, ast.For):
+                u = self.unroll(s)
+            elif depth < 5 and isinstance(s, ast.Expr) and isinstance(s.value, ast.Call):
+                u = self.inline(s)
+            if u is not None:
+                out += self.block(u, depth + 1)
+                continue
+            if not isinstance(s, _DEFS):
+                for f in ('body', 'orelse', 'finalbody'):
+                    v = getattr(s, f, None)
+                    if isinstance(v, list) and v and isinstance(v[0], ast.stmt):
+                        setattr(s, f, self.block(v, depth))
+                for h in getattr(s, 'handlers', None) or []:
+                    h.body = self.block(h.body, depth)
+                for c in getattr(s, 'cases', None) or []:
+                    c.body = self.block(c.body, depth)
+            out.append(s)
+        return out
+
+    def _read_elsewhere(self, loop, names) -> bool:
+        """is a loop variable read outside its loop (where it would hold the value of the last row)?  Readers that
+        bind the name themselves — a comprehension, another loop, a nested function's parameter — do not count."""
+        st = [(self.fn, names)]
+        while st:
+            x, live = st.pop()
+            if x is loop:
+                continue
+            if isinstance(x, ast.Name) and isinstance(x.ctx, ast.Load) and x.id in live:
+                return True
+            if isinstance(x, _COMPS):
+                live = live - {n for g in x.generators for n in assigned_names(g.target)}
+            elif isinstance(x, (ast.For, ast.AsyncFor)):
+                live = live - set(assigned_names(x.target))
+            elif isinstance(x, (ast.FunctionDef, ast.AsyncFunctionDef, ast.Lambda)) and x is not self.fn:
+                a = x.args
+                live = live - {y.arg for y in a.posonlyargs + a.args + a.kwonlyargs}
+            if live:
+                st.extend((ch, live) for ch in ast.iter_child_nodes(x))
+        return False
+
+    def unroll(self, s):
+        rows = _rows(self.fn, s.iter)
+        if rows is None or len(rows) > _MAX_ROWS:
+            return None
+        body = _guard_to_else(list(s.body), ast.Continue)
+        if _jumps(body, (ast.Break, ast.Continue)):
+            return None
+        names = assigned_names(s.target)
+        if not names or any(local_defs(b, n) for b in body for n in names):
+            return None
+        # the loop variables must not be read after the loop (their last value is not represented)
+        if self._read_elsewhere(s, set(names)):
+            return None
+        out = []
+        for r in rows:
+            env = {}
+            if not _bind(s.target, r, env):
+                return None
+            out += [_Fold().visit(_clone(b, env)) for b in body]
+        out += [_clone(b) for b in s.orelse]
+        self.budget -= len(out)
+        if self.budget < 0:
+            return None
+        return out or [ast.copy_location(ast.Pass(), s)]
+
+    def inline(self, s):
+        c = s.value
+        if any(isinstance(a, ast.Starred) for a in c.args) or any(k.arg is None for k in c.keywords):
+            return None
+        callee = resolve_call(self.prog, self.fi, c)
+        if callee is None or callee.module is not self.fi.module or callee == self.fi:
+            return None
+        fnode = callee.node
+        a = fnode.args
+        if isinstance(fnode, ast.AsyncFunctionDef) or a.vararg or a.kwarg or a.kwonlyargs or fnode.decorator_list:
+            return None
+        params = [x.arg for x in a.posonlyargs + a.args]
+        env = {}
+        rest = list(params)
+        if callee.cls is not None and callee.qualname == f'{callee.cls.name}.{fnode.name}' and params[:1] in (['self'], ['cls']):
+            if not isinstance(c.func, ast.Attribute):
+                return None
+            env[params[0]] = c.func.value
+            rest = params[1:]
+        if len(c.args) > len(rest):
+            return None
+        for p, v in zip(rest, c.args):
+            env[p] = v
+        for k in c.keywords:
+            if k.arg not in rest or k.arg in env:
+                return None
+            env[k.arg] = k.value
+        for p, d in zip(params[len(params) - len(a.defaults):], a.defaults):
+            env.setdefault(p, d)
+        if any(p not in env for p in params):
+            return None
+        if not _pushes_to_caller(fnode, set(params) - {'self', 'cls'}) or any(local_defs(fnode, p) for p in params):
+            return None
+        body = list(fnode.body)
+        if body and isinstance(body[0], ast.Expr) and _is_str(body[0].value):
+            body = body[1:]
+        body = _guard_to_else(body, ast.Return)
+        if _jumps(body, (ast.Return, ast.Yield, ast.YieldFrom, ast.Await, ast.Global, ast.Nonlocal), loop_scoped=False):
+            return None
+        out = [_Fold().visit(_clone(b, env)) for b in body]
+        self.budget -= len(out)
+        if self.budget < 0:
+            return None
+        return out or [ast.copy_location(ast.Pass(), s)]
+
+
+class _CompUnroll(ast.NodeTransformer):
+    """[elt for row in <literal table> if c]  ==>  [*([elt_1] if c_1 else []), *([elt_2] if c_2 else []), ...]"""
+
+    def __init__(self, fn):
+        self.fn = fn
+
+    def _comp(self, n):
+        g0 = n.generators[0]
+        rows = None if g0.is_async else _rows(self.fn, g0.iter)
+        if rows is None or len(rows) > _MAX_ROWS:
+            return self.generic_visit(n)
+        elts = []
+        for r in rows:
+            env = {}
+            if not _bind(g0.target, r, env):
+                return self.generic_visit(n)
+            if len(n.generators) > 1:
+                item = ast.ListComp(elt=_clone(n.elt, env), generators=_clone(n.generators[1:], env))
+            else:
+                item = ast.List(elts=[_clone(n.elt, env)], ctx=ast.Load())
+            tests = [_clone(t, env) for t in g0.ifs]
+            if tests:
+                test = tests[0] if len(tests) == 1 else ast.BoolOp(op=ast.And(), values=tests)
+                e = ast.Starred(value=ast.IfExp(test=test, body=item, orelse=ast.List(elts=[], ctx=ast.Load())),
+                                ctx=ast.Load())
+            elif len(n.generators) > 1:
+                e = ast.Starred(value=item, ctx=ast.Load())
+            else:
+                e = item.elts[0]
+            elts.append(e)
+        new = ast.copy_location(ast.List(elts=elts, ctx=ast.Load()), n)
+        for x in ast.walk(new):
+            if not hasattr(x, 'lineno') and isinstance(x, (ast.expr, ast.stmt)):
+                ast.copy_location(x, n)
+        return self.generic_visit(_Fold().visit(new))
+
+    visit_ListComp = _comp
+    visit_GeneratorExp = _comp
+
+
+def _view(prog, fi):
+    cache = prog.__dict__.setdefault('_c14_views', {})
+    k = (fi.file, fi.qualname, id(fi.node))
+    if k not in cache:
+        cache[k] = _Expander(prog, fi).run()
+    return cache[k]
+
+
+def _block_of(st):
+    p = getattr(st, '_parent', None)
+    if p is None:
+        return None, None
+    for _, v in ast.iter_fields(p):
+        if isinstance(v, list) and any(x is st for x in v):
+            return p, v
+    return p, None
+
+
+def _reaching_def(fn, use):
+    """the value of the one plain assignment `name = value` that reaches this load of a local, or None when some
+    other binding of the name may reach it"""
+    name = use.id
+    for a in ancestors(use):
+        if isinstance(a, _COMPS) and any(name in assigned_names(g.target) for g in a.generators):
+            return None
+        if isinstance(a, ast.Lambda) or a is fn:
+            break
+    st = stmt_of(use)
+    while st is not None and st is not fn:
+        p, blk = _block_of(st)
+        if blk is None:
+            return None
+        i = next(j for j, x in enumerate(blk) if x is st)
+        for prev in reversed(blk[:i]):
+            if isinstance(prev, ast.Assign) and len(prev.targets) == 1 and isinstance(prev.targets[0], ast.Name) \
+                    and prev.targets[0].id == name:
+                return prev.value
+            if isinstance(prev, ast.AnnAssign) and isinstance(prev.target, ast.Name) and prev.target.id == name \
+                    and prev.value is not None:
+                return prev.value
+            if local_defs(prev, name):
+                return None
+        if isinstance(p, (ast.For, ast.AsyncFor, ast.While)) and local_defs(p, name):
+            return None
+        if isinstance(p, (ast.With, ast.AsyncWith)) and local_defs(p, name) and not any(local_defs(b, name) for b in p.body):
+            return None
+        if isinstance(p, _DEFS):
+            break
+        st = p if isinstance(p, ast.stmt) else stmt_of(p)
+    return None
+
+
+def _resolve(fi, e):
+    """follow a local through its (single or reaching) plain definitions"""
+    for _ in range(6):
+        if not isinstance(e, ast.Name):
+            break
+        d = single_def_value(fi.node, e.id)
+        if d is None and getattr(e, '_parent', None) is not None:
+            d = _reaching_def(fi.node, e)
+        if d is None:
+            break
+        e = d
+    return e
+
+
 # ---------------------------------------------------------------- R2 -----
+_R2_CONTROL = '''
+def bare(xs):
+    a, b = zip(*xs)
+    return a, b
+def early(xs):
+    if len(xs) == 0:
+        return (), ()
+    a, b = map(list, zip(*xs))
+    return a, b
+def rebound(xs, ys):
+    if not xs:
+        return (), ()
+    xs = ys
+    a, b = zip(*xs)
+    return a, b
+'''
+
+
+def _emptiness_fact(e, pol, xs) -> int:
+    """+1: `e` having truth value pol implies xs is non-empty; -1: implies xs is empty; 0: says nothing"""
+    s = 0
+    if norm(e) in (xs, f'len({xs})', f'bool({xs})'):
+        s = 1
+    elif isinstance(e, ast.Compare) and len(e.ops) == 1:
+        left, op, right = norm(e.left), type(e.ops[0]), norm(e.comparators[0])
+        flip = {ast.Lt: ast.Gt, ast.Gt: ast.Lt, ast.LtE: ast.GtE, ast.GtE: ast.LtE}
+        if right in (f'len({xs})', xs) and left not in (f'len({xs})', xs):
+            left, right, op = right, left, flip.get(op, op)
+        if left == f'len({xs})':
+            s = {(ast.Gt, '0'): 1, (ast.GtE, '1'): 1, (ast.NotEq, '0'): 1,
+                 (ast.Eq, '0'): -1, (ast.Lt, '1'): -1, (ast.LtE, '0'): -1}.get((op, right), 0)
+        elif left == xs and right in ('[]', '()', 'list()', 'tuple()'):
+            s = {ast.NotEq: 1, ast.Eq: -1}.get(op, 0)
+    return s if pol else -s
+
+
+def _zip_unpack_sites(fn):
+    """[(assignment, zip call, text of xs)] for `a, b = ...zip(*xs)...`"""
+    out = []
+    for x in walk_no_nested(fn):
+        if isinstance(x, ast.Assign) and any(isinstance(t, (ast.Tuple, ast.List)) for t in x.targets):
+            for c in ast.walk(x.value):
+                if isinstance(c, ast.Call) and call_name(c) == 'zip' and len(c.args) == 1 \
+                        and isinstance(c.args[0], ast.Starred):
+                    out.append((x, c, norm(c.args[0].value)))
+                    break
+    return out
+
+
+def _rebinds(node, xs) -> bool:
+    """does executing this CFG node possibly change (the emptiness of) xs?"""
+    st = node.stmt
+    if st is None:
+        return False
+    root = xs.split('.')[0].split('[')[0]
+    if node.kind == 'iter':
+        return any(norm(t) in (xs, root) for t in _flat_targets(st.target))
+    if node.kind == 'with':
+        return any(it.optional_vars is not None and norm(t) in (xs, root)
+                   for it in st.items for t in _flat_targets(it.optional_vars))
+    if node.kind != 'stmt' or isinstance(st, _DEFS):
+        return False
+    for t, _, _ in stores_to(st):
+        if norm(t) in (xs, root) or (isinstance(t, ast.Subscript) and norm(t.value) == xs):
+            return True
+    for c in calls_in(st):
+        if isinstance(c.func, ast.Attribute) and norm(c.func.value) == xs and c.func.attr in ('clear', 'pop', 'remove', 'popitem'):
+            return True
+    return False
+
+
+def _flat_targets(t):
+    if isinstance(t, (ast.Tuple, ast.List)):
+        return [y for e in t.elts for y in _flat_targets(e)]
+    if isinstance(t, ast.Starred):
+        return _flat_targets(t.value)
+    return [t]
+
+
+def _nonempty_on_every_path(fn, site, zc, xs):
+    """a reason why xs is known to be non-empty whenever the unpack runs, or None"""
+    for t, pol, _ in guards_of(zc):
+        if any(_emptiness_fact(a, p, xs) > 0 for a, p in conjuncts(t, pol)):
+            return f'evaluated only under `{norm(t)}`' if pol else f'evaluated only when `{norm(t)}` is false'
+    g = CFG(fn)
+    nodes = {n.id: n for n in g.nodes}
+    target = set(g.nodes_of(site))
+    if not target:
+        return None
+    # search over (node, is xs known to be non-empty); the site must be unreachable in the state "not known"
+    seen = {(g.entry, False)}
+    work = [(g.entry, False)]
+    why = None
+    while work:
+        a, known = work.pop()
+        if a in target and not known:
+            return None
+        n = nodes[a]
+        if known and _rebinds(n, xs):
+            known = False
+        for b, lab in g.succ[a]:
+            k = known
+            if not k and n.kind == 'test' and lab in ('t', 'f') and hasattr(n.stmt, 'test') and \
+                    any(_emptiness_fact(at, p, xs) > 0 for at, p in conjuncts(n.stmt.test, lab == 't')):
+                k = True
+                why = n.text()
+            if (b, k) not in seen:
+                seen.add((b, k))
+                work.append((b, k))
+    return f'`{why}` sends the empty case elsewhere on every path to the unpack' if why else None
+
+
 def rule_unpack(ctx):
     prog = ctx.prog
+    # positive control: the matcher and the path search on embedded examples (the obligation is conditional —
+    # IF a collection is unpacked with zip(*xs) THEN it is known to be non-empty — so the tree may contain no site)
+    tree = _set_parents(ast.parse(_R2_CONTROL))
+    got = {}
+    for f in tree.body:
+        sites = _zip_unpack_sites(f)
+        got[f.name] = [(_nonempty_on_every_path(f, s, zc, xs) is not None) for s, zc, xs in sites]
+    ctx.control('C14-R2', got == {'bare': [False], 'early': [True], 'rebound': [False]},
+                'embedded zip(*xs) unpack examples: unguarded, guarded by an early return, guard invalidated by a re-binding')
     fns = prog.all_functions() if ctx.tier == 'thorough' else \
         [f for f in prog.all_functions() if f.file.endswith((Q, F))]
     n = 0
     for fi in fns:
-        for x in walk_no_nested(fi.node):
-            if isinstance(x, ast.Assign) and isinstance(x.targets[0], ast.Tuple):
-                z = [c for c in ast.walk(x.value) if isinstance(c, ast.Call) and call_name(c) == 'zip'
-                     and len(c.args) == 1 and isinstance(c.args[0], ast.Starred)]
-                if not z:
-                    continue
-                n += 1
-                xs = norm(z[0].args[0].value)
-                g = CFG(fi.node)
-                dom = g.dominators(edge_ok=lambda a, b, lab: lab != 'e')
-                un = g.nodes_of(x)
-                guard = None
-                for t in g.nodes:
-                    if t.kind == 'test' and isinstance(t.stmt, ast.If) and norm(t.stmt.test) in (
-                            f'not {xs}', f'len({xs}) == 0', f'{xs} == []', f'not len({xs})') \
-                            and isinstance(last_stmt(t.stmt.body), (ast.Return, ast.Raise)):
-                        if un and t.id in dom[un[0]]:
-                            guard = t
-                    if t.kind == 'test' and isinstance(t.stmt, ast.If) and norm(t.stmt.test) in (xs, f'len({xs}) > 0') \
-                            and any(x is s or any(a is s for a in ancestors(x)) for s in t.stmt.body):
-                        guard = t
-                ctx.ob('C14-R2', fi, f'{norm(x.targets[0])} = …zip(*{xs})', guard is not None,
-                       f'`{guard.text()}` handles the empty case first' if guard is not None else
-                       f'unpacking zip(*{xs}) fails with "not enough values to unpack" when {xs} is empty: '
-                       'a filter with no conditions must select everything', line=x.lineno)
-    ctx.floor('C14-R2', n, 1, 'zip(*xs) unpack sites')
+        for x, zc, xs in _zip_unpack_sites(fi.node):
+            n += 1
+            why = _nonempty_on_every_path(fi.node, x, zc, xs)
+            ctx.ob('C14-R2', fi, f'{norm(x.targets[0])} = …zip(*{xs})', why is not None,
+                   why if why is not None else
+                   f'unpacking zip(*{xs}) fails with "not enough values to unpack" when {xs} is empty: '
+                   'a filter with no conditions must select everything', line=x.lineno)
+    ctx.rules_run.setdefault('C14-R2', {})['found'] = n
 
 
 # ---------------------------------------------------------------- R3 -----
-def _q_count(fi, e, env=None, depth=0) -> Counter | None:
-    """number of '?' produced by string expression e, as a linear form"""
-    env = env or {}
-    if depth > 6:
+def _scale(c: Counter, k: int) -> Counter:
+    return Counter({s: v * k for s, v in c.items() if v * k})
+
+
+class _Count:
+    """symbolic counting of `?` placeholders in a text expression and of the parameters pushed with it, as linear
+    forms over len(<collection>)"""
+
+    def __init__(self, prog, scalars=()):
+        self.prog = prog
+        self.scalars = set(scalars)  # names of fields of `self` that hold one scalar (not a list)
+
+    # -- helpers
+    def sym(self, fi, e, env):
+        s = norm(_resolve(fi, e))
+        return env.get('@' + s, s)
+
+    def count_of(self, fi, e, env, depth=0) -> Counter | None:
+        """an integer expression"""
+        e = _resolve(fi, e)
+        if depth > 6:
+            return None
+        v = const_value(e)
+        if isinstance(v, int) and not isinstance(v, bool) and v >= 0:
+            return Counter({'1': v}) if v else Counter()
+        if isinstance(e, ast.Call) and call_name(e) == 'len' and len(e.args) == 1:
+            return Counter({f'len({self.sym(fi, e.args[0], env)})': 1})
+        if isinstance(e, ast.BinOp) and isinstance(e.op, ast.Add):
+            a, b = self.count_of(fi, e.left, env, depth + 1), self.count_of(fi, e.right, env, depth + 1)
+            return None if a is None or b is None else a + b
+        if isinstance(e, ast.BinOp) and isinstance(e.op, ast.Mult):
+            for k, o in ((e.left, e.right), (e.right, e.left)):
+                kv = const_value(k)
+                if isinstance(kv, int) and not isinstance(kv, bool) and kv >= 0:
+                    c = self.count_of(fi, o, env, depth + 1)
+                    return None if c is None else _scale(c, kv)
         return None
-    if isinstance(e, ast.Constant) and isinstance(e.value, str):
-        return Counter({'1': e.value.count('?')}) if e.value.count('?') else Counter()
-    if isinstance(e, ast.JoinedStr):
-        tot = Counter()
-        for v in e.values:
-            c = _q_count(fi, v, env, depth + 1)
-            if c is None:
-                return None
-            tot += c
-        return tot
-    if isinstance(e, ast.FormattedValue):
-        return _q_count(fi, e.value, env, depth + 1)
-    if isinstance(e, ast.BinOp) and isinstance(e.op, ast.Add):
-        a, b = _q_count(fi, e.left, env, depth + 1), _q_count(fi, e.right, env, depth + 1)
-        return None if a is None or b is None else a + b
-    if isinstance(e, ast.Name):
-        if e.id in env:
-            return env[e.id]
-        if e.id in ('table',):
+
+    def marks(self, fi, a, env, depth=0) -> Counter | None:
+        """number of `?` contributed by the items of iterable a (the argument of str.join)"""
+        a = _resolve(fi, a)
+        if depth > 6:
+            return None
+        if _is_str(a):
+            return Counter({'1': a.value.count('?')}) if '?' in a.value else Counter()
+        if isinstance(a, (ast.List, ast.Tuple)) and all(_is_str(x) for x in a.elts):
+            k = sum(x.value.count('?') for x in a.elts)
+            return Counter({'1': k}) if k else Counter()
+        if isinstance(a, ast.BinOp) and isinstance(a.op, ast.Mult):
+            for seq, cnt in ((a.left, a.right), (a.right, a.left)):
+                seq = _resolve(fi, seq)
+                if _is_str(seq) or isinstance(seq, (ast.List, ast.Tuple)):
+                    base = self.marks(fi, seq, env, depth + 1)
+                    c = self.count_of(fi, cnt, env)
+                    if base is None or c is None or set(base) - {'1'}:
+                        return None
+                    return _scale(c, base.get('1', 0))
+            return None
+        if isinstance(a, (ast.ListComp, ast.GeneratorExp)) and len(a.generators) == 1 and not a.generators[0].ifs \
+                and _is_str(a.elt):
+            it = a.generators[0].iter
+            if isinstance(it, ast.Call) and call_name(it) == 'range' and len(it.args) == 1:
+                c = self.count_of(fi, it.args[0], env)
+            else:
+                c = Counter({f'len({self.sym(fi, it, env)})': 1})
+            return None if c is None else _scale(c, a.elt.value.count('?'))
+        if isinstance(a, ast.Call) and call_name(a) in ('list', 'tuple') and len(a.args) == 1:
+            return self.marks(fi, a.args[0], env, depth + 1)
+        return None
+
+    def _param_ok(self, fi, name, env, depth):
+        """a str parameter (the table prefix) is taken to carry no placeholder; its local re-bindings must not
+        add one"""
+        for d in local_defs(fi.node, name):
+            v = getattr(d, 'value', None)
+            if not isinstance(d, (ast.Assign, ast.AugAssign, ast.AnnAssign)) or v is None:
+                return False
+            if not (isinstance(d, ast.AugAssign) or norm(getattr(d, 'target', None) or d.targets[0]) == name):
+                return False
+            c = self.q(fi, v, env, depth + 1)
+            if c is None or +c:
+                return False
+        return True
+
+    # -- placeholders in a text expression
+    def q(self, fi, e, env=None, depth=0) -> Counter | None:
+        env = env or {}
+        if depth > 8:
+            return None
+        if isinstance(e, ast.Constant):
+            return Counter({'1': e.value.count('?')}) if isinstance(e.value, str) and '?' in e.value else Counter()
+        if isinstance(e, ast.JoinedStr):
+            tot = Counter()
+            for v in e.values:
+                c = self.q(fi, v, env, depth + 1)
+                if c is None:
+                    return None
+                tot += c
+            return tot
+        if isinstance(e, ast.FormattedValue):
+            return self.q(fi, e.value, env, depth + 1)
+        if isinstance(e, ast.BinOp) and isinstance(e.op, ast.Add):
+            a, b = self.q(fi, e.left, env, depth + 1), self.q(fi, e.right, env, depth + 1)
+            return None if a is None or b is None else a + b
+        if isinstance(e, ast.BinOp) and isinstance(e.op, ast.Mult):
+            for s, cnt in ((e.left, e.right), (e.right, e.left)):
+                s = _resolve(fi, s)
+                if _is_str(s):
+                    c = self.count_of(fi, cnt, env)
+                    return None if c is None else _scale(c, s.value.count('?'))
+            return None
+        if isinstance(e, ast.IfExp):
+            a, b = self.q(fi, e.body, env, depth + 1), self.q(fi, e.orelse, env, depth + 1)
+            return a if a is not None and b is not None and +a == +b else None
+        if isinstance(e, ast.Name):
+            if e.id in env:
+                return env[e.id]
+            r = _resolve(fi, e)
+            if r is not e:
+                return self.q(fi, r, env, depth + 1)
+            f2 = fi
+            while f2 is not None:
+                if e.id in f2.params:
+                    return Counter() if self._param_ok(f2, e.id, env, depth) else None
+                if '.<locals>.' not in f2.qualname:
+                    break
+                f2 = f2.module.functions.get(f2.qualname.rsplit('.<locals>.', 1)[0])
+                if f2 is not None:
+                    d = single_def_value(f2.node, e.id)
+                    if d is not None:
+                        return self.q(f2, d, env, depth + 1)
+            return None
+        if isinstance(e, ast.Call):
+            if isinstance(e.func, ast.Attribute) and e.func.attr == 'join' and len(e.args) == 1 and not e.keywords:
+                sep = _resolve(fi, e.func.value)
+                if not _is_str(sep) or '?' in sep.value:
+                    return None
+                return self.marks(fi, e.args[0], env)
+            if call_name(e) == 'str' and len(e.args) == 1:
+                return self.q(fi, e.args[0], env, depth + 1)
+            # a helper of the repository that returns the text: count in its single return, with the lengths
+            # expressed in the caller's collections
+            callee = resolve_call(self.prog, fi, e)
+            if callee is not None and callee.module is fi.module and not e.keywords:
+                ps = callee.params
+                if callee.cls is not None and ps[:1] in (['self'], ['cls']) and isinstance(e.func, ast.Attribute):
+                    ps = ps[1:]
+                rets = [n for n in walk_no_nested(callee.node) if isinstance(n, ast.Return)]
+                if len(rets) == 1 and rets[0].value is not None and len(e.args) == len(ps):
+                    env2 = {'@' + p: self.sym(fi, a, env) for p, a in zip(ps, e.args)}
+                    return self.q(callee, rets[0].value, env2, depth + 1)
+            return None
+        if isinstance(e, ast.Attribute) and norm(e) in ('self._where_clause',):
             return Counter()
-        d = single_def_value(fi.node, e.id)
-        if d is None:
-            # several definitions: take the nearest preceding one in the same block
-            blk = getattr(stmt_of(e), '_parent', None)
-            cands = [st for t, st, how in stores_to(fi.node) if isinstance(t, ast.Name) and t.id == e.id
-                     and how == 'assign' and getattr(st, '_parent', None) is blk and st.lineno < e.lineno]
-            d = cands[-1].value if cands else None
-        if d is not None:
-            return _q_count(fi, d, env, depth + 1)
         return None
-    if isinstance(e, ast.Call):
-        cn = call_name(e)
-        # ', '.join('?' * len(X))
-        if isinstance(e.func, ast.Attribute) and e.func.attr == 'join' and len(e.args) == 1:
-            a = e.args[0]
-            if isinstance(a, ast.BinOp) and isinstance(a.op, ast.Mult) and isinstance(a.left, ast.Constant) \
-                    and a.left.value == '?' and isinstance(a.right, ast.Call) and call_name(a.right) == 'len':
-                sym = norm(a.right.args[0])
-                return Counter({f'len({env.get("@" + sym, sym)})': 1})
-            if isinstance(a, ast.BinOp) and isinstance(a.op, ast.Mult) and isinstance(a.left, ast.List):
+
+    # -- parameters pushed with it
+    def p(self, fi, e, env=None, depth=0) -> Counter | None:
+        env = env or {}
+        e = _resolve(fi, e)
+        if depth > 6:
+            return None
+        if isinstance(e, (ast.List, ast.Tuple)):
+            tot = Counter()
+            for x in e.elts:
+                c = self.p(fi, x.value, env, depth + 1) if isinstance(x, ast.Starred) else Counter({'1': 1})
+                if c is None:
+                    return None
+                tot += c
+            return tot
+        if isinstance(e, ast.BinOp) and isinstance(e.op, ast.Add):
+            a, b = self.p(fi, e.left, env, depth + 1), self.p(fi, e.right, env, depth + 1)
+            return None if a is None or b is None else a + b
+        if isinstance(e, ast.BinOp) and isinstance(e.op, ast.Mult):
+            for k, o in ((e.left, e.right), (e.right, e.left)):
+                kv = const_value(k)
+                if isinstance(kv, int) and not isinstance(kv, bool) and kv >= 0:
+                    c = self.p(fi, o, env, depth + 1)
+                    return None if c is None else _scale(c, kv)
+            return None
+        if isinstance(e, ast.IfExp):
+            a, b = self.p(fi, e.body, env, depth + 1), self.p(fi, e.orelse, env, depth + 1)
+            return a if a is not None and b is not None and +a == +b else None
+        if isinstance(e, ast.Call) and call_name(e) in ('list', 'tuple', 'sorted') and len(e.args) == 1:
+            return self.p(fi, e.args[0], env, depth + 1)
+        if isinstance(e, ast.Call) and isinstance(e.func, ast.Attribute) and e.func.attr == 'copy' and not e.args:
+            return self.p(fi, e.func.value, env, depth + 1)
+        if isinstance(e, ast.Subscript) and isinstance(e.slice, ast.Slice) and e.slice.lower is None \
+                and e.slice.upper is None and e.slice.step is None:
+            return self.p(fi, e.value, env, depth + 1)
+        if isinstance(e, ast.Constant) and not isinstance(e.value, (str, bytes)) and e.value is not None:
+            return Counter({'1': 1})
+        if isinstance(e, ast.Attribute) and norm(e.value) == 'self' and e.attr in self.scalars:
+            return Counter({'1': 1})
+        if isinstance(e, (ast.Attribute, ast.Name)):
+            return Counter({f'len({self.sym(fi, e, env)})': 1})
+        return None
+
+
+def _sink_of(t):
+    """how a tuple enters a list of conditions: ('push', <receiver>), ('bind', <name>), ('ret', None) or None"""
+    p = getattr(t, '_parent', None)
+    if isinstance(p, ast.Call) and isinstance(p.func, ast.Attribute) and p.func.attr in ('append', 'insert') \
+            and p.args and p.args[-1] is t:
+        return 'push', norm(p.func.value)
+    if not isinstance(p, ast.List):
+        return None
+    x = p
+    while True:
+        q = getattr(x, '_parent', None)
+        if isinstance(q, (ast.List, ast.Starred)) or (isinstance(q, ast.IfExp) and x is not q.test) or \
+                (isinstance(q, ast.BinOp) and isinstance(q.op, ast.Add)) or \
+                (isinstance(q, ast.Call) and call_name(q) in ('list', 'tuple') and x in q.args):
+            x = q
+            continue
+        break
+    if isinstance(q, ast.Return):
+        return 'ret', None
+    if isinstance(q, ast.Assign) and len(q.targets) == 1 and isinstance(q.targets[0], ast.Name) and q.value is x:
+        return 'bind', q.targets[0].id
+    if isinstance(q, ast.AnnAssign) and isinstance(q.target, ast.Name) and q.value is x:
+        return 'bind', q.target.id
+    if isinstance(q, ast.AugAssign) and isinstance(q.op, ast.Add) and q.value is x:
+        return 'push', norm(q.target)
+    if isinstance(q, ast.Call) and isinstance(q.func, ast.Attribute) and q.func.attr == 'extend' and x in q.args:
+        return 'push', norm(q.func.value)
+    return None
+
+
+def _pairs_into(view, lists=None):
+    """2-tuples that enter a list of conditions of this function: a returned list, or one of the named lists"""
+    if lists is None:
+        lists = set()
+        for r in walk_no_nested(view.node):
+            if isinstance(r, ast.Return) and r.value is not None:
+                lists |= {x.id for x in ast.walk(r.value) if isinstance(x, ast.Name)}
+    out = []
+    for t in walk_no_nested(view.node):
+        if isinstance(t, ast.Tuple) and len(t.elts) == 2 and isinstance(t.ctx, ast.Load):
+            s = _sink_of(t)
+            if s is not None and (s[0] == 'ret' or s[1] in lists):
+                out.append(t)
+    out.sort(key=lambda t: (t.lineno, t.col_offset))
+    return out
+
+
+def _list_inflows(view):
+    """(receiver name, expression) for every statement that adds to / binds a local list"""
+    for x in walk_no_nested(view.node):
+        if isinstance(x, ast.Assign) and len(x.targets) == 1 and isinstance(x.targets[0], ast.Name):
+            yield x.targets[0].id, x.value
+        elif isinstance(x, ast.AugAssign) and isinstance(x.op, ast.Add) and isinstance(x.target, ast.Name):
+            yield x.target.id, x.value
+        elif isinstance(x, ast.Call) and isinstance(x.func, ast.Attribute) and isinstance(x.func.value, ast.Name) \
+                and x.func.attr in ('append', 'extend', 'insert') and x.args:
+            yield x.func.value.id, x.args[-1]
+
+
+def _is_listify(e, tagged):
+    """`ps if isinstance(ps, list) else [ps]` (either polarity) for a name in tagged → that name"""
+    if not isinstance(e, ast.IfExp):
+        return None
+    t, a, b = e.test, e.body, e.orelse
+    if isinstance(t, ast.UnaryOp) and isinstance(t.op, ast.Not):
+        t, a, b = t.operand, b, a
+    nm = _isinstance_list(t)
+    if nm is None or nm not in tagged:
+        return None
+    if isinstance(a, ast.Name) and a.id == nm and isinstance(b, (ast.List, ast.Tuple)) and len(b.elts) == 1 \
+            and isinstance(b.elts[0], ast.Name) and b.elts[0].id == nm:
+        return nm
+    return None
+
+
+def _isinstance_list(t):
+    if isinstance(t, ast.Call) and call_name(t) == 'isinstance' and len(t.args) == 2 and isinstance(t.args[0], ast.Name) \
+            and norm(t.args[1]) in ('list', '(list, tuple)', '(tuple, list)', 'list | tuple', 'tuple | list'):
+        return t.args[0].id
+    return None
+
+
+class _Flatten:
+    """abstract evaluation of the step that turns the list of (text, parameters) pairs into the WHERE text and one
+    flat parameter list.  Values: 'conds' (the pair list), 'firsts' / 'seconds' (its components, in order),
+    'listified' (seconds, each wrapped into a list unless it is one), 'flat' (seconds flattened in order),
+    ('pair', a, b), ('join', sep, v), ('str', s), 'empty', ('bad', why), None (unknown)."""
+
+    def __init__(self, view, conds: str):
+        self.fn = view.node
+        self.C = conds
+        self.bound = {}
+
+    def elem(self, e):
+        """what one loop / comprehension element expression denotes"""
+        if isinstance(e, ast.Name):
+            return self.bound.get(e.id)
+        if isinstance(e, ast.Subscript) and isinstance(e.value, ast.Name) and self.bound.get(e.value.id) == 'e12':
+            i = const_value(e.slice)
+            return {0: 'e1', 1: 'e2', -2: 'e1', -1: 'e2'}.get(i)
+        nm = _is_listify(e, {k for k, v in self.bound.items() if v == 'e2'})
+        if nm is not None:
+            return 'eL'
+        return None
+
+    def bind(self, target, it):
+        """bind loop targets for iteration over abstract value it; False if not understood"""
+        if it == 'conds':
+            if isinstance(target, (ast.Tuple, ast.List)) and len(target.elts) == 2 and \
+                    all(isinstance(x, ast.Name) for x in target.elts):
+                self.bound[target.elts[0].id] = 'e1'
+                self.bound[target.elts[1].id] = 'e2'
+                return True
+            if isinstance(target, ast.Name):
+                self.bound[target.id] = 'e12'
+                return True
+            return False
+        tag = {'firsts': 'e1', 'seconds': 'e2', 'listified': 'eL'}.get(it)
+        if tag and isinstance(target, ast.Name):
+            self.bound[target.id] = tag
+            return True
+        return False
+
+    def comp(self, c, depth):
+        gens = c.generators
+        if any(g.ifs or g.is_async for g in gens) or len(gens) > 2:
+            return None
+        if not self.bind(gens[0].target, self.val(gens[0].iter, depth + 1)):
+            return None
+        if len(gens) == 1:
+            return {'e1': 'firsts', 'e2': 'seconds', 'eL': 'listified', 'e12': 'conds'}.get(self.elem(c.elt))
+        inner = self.elem(gens[1].iter)
+        if not isinstance(gens[1].target, ast.Name) or not isinstance(c.elt, ast.Name) or c.elt.id != gens[1].target.id:
+            return None
+        if inner == 'eL':
+            return 'flat'
+        if inner == 'e2':
+            return 'bad', 'each parameter entry is iterated as if it were a list, but range bounds are pushed as scalars'
+        return None
+
+    def accumulated(self, name, depth):
+        """a local initialised to an empty list and filled inside one loop over the pairs"""
+        defs = local_defs(self.fn, name)
+        init = [d for d in defs if isinstance(d, (ast.Assign, ast.AnnAssign))]
+        if len(init) != 1 or any(not isinstance(d, (ast.Assign, ast.AnnAssign, ast.AugAssign)) for d in defs):
+            return None
+        iv = init[0].value
+        if not ((isinstance(iv, ast.List) and not iv.elts) or (isinstance(iv, ast.Call) and call_name(iv) == 'list' and not iv.args)):
+            return None
+        muts = [d for d in defs if isinstance(d, ast.AugAssign)]
+        for x in walk_no_nested(self.fn):
+            if isinstance(x, ast.Call) and isinstance(x.func, ast.Attribute) and x.func.attr in MUTATING_METHODS \
+                    and isinstance(x.func.value, ast.Name) and x.func.value.id == name:
+                muts.append(stmt_of(x))
+        if not muts:
+            return None
+        loops = {id(a): a for m in muts for a in ancestors(m) if isinstance(a, (ast.For, ast.While, ast.AsyncFor))}
+        if len(loops) != 1:
+            return None
+        loop = next(iter(loops.values()))
+        if not isinstance(loop, ast.For) or loop.orelse or _jumps(loop.body, (ast.Break, ast.Continue)) \
+                or any(x is loop for x in ancestors(init[0])):
+            return None
+        if not self.bind(loop.target, self.val(loop.iter, depth + 1)):
+            return None
+        units = [s for s in loop.body if any(m is s or any(a is s for a in ancestors(m)) for m in muts)]
+        if len(units) != 1:
+            return None
+        u = units[0]
+
+        def push(st):
+            """('append' | 'extend', element expression) of a single statement pushing onto `name`"""
+            if isinstance(st, ast.AugAssign) and isinstance(st.op, ast.Add) and norm(st.target) == name:
+                v = st.value
+                if isinstance(v, (ast.List, ast.Tuple)) and len(v.elts) == 1 and not isinstance(v.elts[0], ast.Starred):
+                    return 'append', v.elts[0]
+                return 'extend', v
+            if isinstance(st, ast.Expr) and isinstance(st.value, ast.Call) and isinstance(st.value.func, ast.Attribute) \
+                    and norm(st.value.func.value) == name and len(st.value.args) == 1 and not st.value.keywords:
+                if st.value.func.attr in ('append', 'extend'):
+                    return st.value.func.attr, st.value.args[0]
+            return None
+
+        pu = push(u)
+        if pu is not None:
+            how, e = pu
+            tag = self.elem(e)
+            if how == 'append':
+                return {'e1': 'firsts', 'e2': 'seconds', 'eL': 'listified', 'e12': 'conds'}.get(tag)
+            if tag == 'eL':
+                return 'flat'
+            if tag == 'e2':
+                return 'bad', 'each parameter entry is extended as if it were a list, but range bounds are pushed as scalars'
+            return None
+        if isinstance(u, ast.If) and len(real_body(u.body)) == 1 and len(real_body(u.orelse)) == 1:
+            t, a, b = u.test, real_body(u.body)[0], real_body(u.orelse)[0]
+            if isinstance(t, ast.UnaryOp) and isinstance(t.op, ast.Not):
+                t, a, b = t.operand, b, a
+            nm = _isinstance_list(t)
+            pa, pb = push(a), push(b)
+            if nm is not None and self.bound.get(nm) == 'e2' and pa is not None and pb is not None \
+                    and pa[0] == 'extend' and pb[0] == 'append' \
+                    and isinstance(pa[1], ast.Name) and pa[1].id == nm and isinstance(pb[1], ast.Name) and pb[1].id == nm:
+                return 'flat'
+        return None
+
+    def val(self, e, depth=0):
+        if e is None or depth > 10:
+            return None
+        if isinstance(e, ast.Name):
+            if e.id == self.C:
+                return 'conds'
+            tc = tuple_def_component(self.fn, e.id)
+            if tc is not None:
+                v = self.val(tc[0], depth + 1)
+                if isinstance(v, tuple) and v[0] == 'pair' and tc[1] < 2:
+                    return v[1 + tc[1]]
                 return None
-        # local helper returning a string: sub_select_for(X)
-        q = fi.qualname
-        helper = fi.module.functions.get(f'{q}.<locals>.{cn}')
-        if helper is not None and len(e.args) == len(helper.params):
-            rets = [n for n in walk_no_nested(helper.node) if isinstance(n, ast.Return)]
-            if len(rets) == 1:
-                env2 = {'@' + p: norm(a) for p, a in zip(helper.params, e.args)}
-                return _q_count(helper, rets[0].value, env2, depth + 1)
+            acc = self.accumulated(e.id, depth)
+            if acc is not None:
+                return acc
+            d = single_def_value(self.fn, e.id)
+            return self.val(d, depth + 1) if d is not None else None
+        if isinstance(e, ast.Constant) and isinstance(e.value, str):
+            return 'str', e.value
+        if isinstance(e, (ast.List, ast.Tuple)) and not e.elts:
+            return 'empty'
+        if isinstance(e, (ast.ListComp, ast.GeneratorExp)):
+            return self.comp(e, depth)
+        if isinstance(e, ast.Subscript):
+            v = self.val(e.value, depth + 1)
+            i = const_value(e.slice)
+            if isinstance(v, tuple) and v[0] == 'pair' and i in (0, 1):
+                return v[1 + i]
+            return None
+        if isinstance(e, ast.Call):
+            cn = call_name(e)
+            if cn in ('list', 'tuple', 'iter') and len(e.args) == 1 and not e.keywords:
+                return self.val(e.args[0], depth + 1)
+            if cn == 'list' and not e.args:
+                return 'empty'
+            if cn == 'zip' and len(e.args) == 1 and isinstance(e.args[0], ast.Starred):
+                return ('pair', 'firsts', 'seconds') if self.val(e.args[0].value, depth + 1) == 'conds' else None
+            if cn == 'map' and len(e.args) == 2 and norm(e.args[0]) in ('list', 'tuple'):
+                v = self.val(e.args[1], depth + 1)
+                return v if isinstance(v, tuple) and v[0] == 'pair' else None
+            if isinstance(e.func, ast.Attribute) and e.func.attr == 'join' and len(e.args) == 1 and _is_str(e.func.value):
+                return 'join', e.func.value.value, self.val(e.args[0], depth + 1)
+            flat_of = None
+            if cn.endswith('chain.from_iterable') and len(e.args) == 1:
+                flat_of = e.args[0]
+            elif cn.split('.')[-1] == 'chain' and len(e.args) == 1 and isinstance(e.args[0], ast.Starred):
+                flat_of = e.args[0].value
+            elif cn == 'sum' and len(e.args) == 2 and self.val(e.args[1], depth + 1) == 'empty':
+                flat_of = e.args[0]
+            if flat_of is not None:
+                v = self.val(flat_of, depth + 1)
+                if v == 'listified':
+                    return 'flat'
+                if v == 'seconds':
+                    return 'bad', 'the parameter entries are chained as if each were a list, but range bounds are pushed as scalars'
+            return None
         return None
-    if isinstance(e, ast.Attribute) and norm(e) in ('self._where_clause',):
-        return Counter()
-    return None
 
 
-def _p_count(e) -> Counter | None:
-    """number of parameters a parameter expression contributes"""
-    if isinstance(e, ast.List):
-        return Counter({'1': len(e.elts)})
-    if isinstance(e, ast.BinOp) and isinstance(e.op, ast.Add):
-        a, b = _p_count(e.left), _p_count(e.right)
-        return None if a is None or b is None else a + b
-    if isinstance(e, (ast.Attribute, ast.Name)):
-        return Counter({f'len({norm(e)})': 1})
-    return None
+def _text_constant(fi, e, depth=0) -> str:
+    """the literal part of a text expression, in source order, locals followed to their definitions"""
+    if depth > 4:
+        return ''
+    if isinstance(e, ast.Name):
+        r = _resolve(fi, e)
+        return '' if r is e else _text_constant(fi, r, depth + 1)
+    if _is_str(e):
+        return e.value
+    if isinstance(e, ast.Call) and not (isinstance(e.func, ast.Attribute) and e.func.attr == 'format'):
+        return ''
+    return ''.join(_text_constant(fi, ch, depth) for ch in ast.iter_child_nodes(e))
 
 
 def rule_placeholders(ctx):
     prog = ctx.prog
     fm = prog.module(F)
+    fcls = prog.cls(F, 'Filter')
+    numeric = _numeric_optionals(fcls)
+    cnt = _Count(prog, numeric)
+    ts = fcls.find_method('to_sql')
+    tv = _view(prog, ts)
+    # condition builders: the other methods of Filter that return (text, parameters) pairs
+    builders = {}
+    for m in fcls.methods.values():
+        if m is ts or m.qualname == ts.qualname:
+            continue
+        v = _view(prog, m)
+        pairs = _pairs_into(v)
+        if pairs:
+            builders[m.qualname] = (v, pairs)
+    ctx.floor('C14-R3/builders', len(builders), 4, 'methods of Filter returning (text, parameters) pairs')
+    # the list of pairs in to_sql: the local that receives the builders' results / pushed pairs
+    into = {}
+    for name, e in _list_inflows(tv):
+        for c in [x for x in ast.walk(e) if isinstance(x, ast.Call)]:
+            callee = resolve_call(prog, tv, c)
+            if callee is not None and callee.qualname in builders:
+                into.setdefault(name, set()).add(callee.qualname)
+    cands = set(into)
+    for t in walk_no_nested(tv.node):
+        if isinstance(t, ast.Tuple) and len(t.elts) == 2 and isinstance(t.ctx, ast.Load):
+            s = _sink_of(t)
+            if s is not None and s[0] in ('push', 'bind') and s[1].isidentifier():
+                cands.add(s[1])
+    rets = []
+    for r in walk_no_nested(tv.node):
+        if isinstance(r, ast.Return) and r.value is not None:
+            v = _resolve(tv, r.value)
+            if isinstance(v, ast.Tuple) and len(v.elts) == 2:
+                rets.append((r, v))
+    # … is the one the returned text is joined from
+    shaped = []
+    for c in sorted(cands):
+        for r, v in rets:
+            tvv = _Flatten(tv, c).val(v.elts[0])
+            if isinstance(tvv, tuple) and tvv[0] == 'join' and tvv[2] == 'firsts':
+                shaped.append(c)
+                break
+    if len(shaped) != 1:
+        ctx.undecided('C14-R3', tv, 'to_sql return value',
+                      f'cannot identify the list of (text, parameters) pairs the WHERE text is joined from (candidates: {sorted(cands)})')
+    conds = shaped[0]
+    for q, (v, _) in sorted(builders.items()):
+        ok = q in into.get(conds, ())
+        ctx.ob('C14-R3', tv, f'conditions of {q} are part of the WHERE clause', ok,
+               f'its result is added to `{conds}`' if ok else
+               f'{q} builds conditions that never reach the list the WHERE clause is built from: those filters are ignored')
+    # closures that push pairs but could not be merged into their caller
+    for v in [tv] + [b[0] for b in builders.values()]:
+        pref = v.qualname + '.<locals>.'
+        for q, g in fm.functions.items():
+            if q.startswith(pref) and '.<locals>.' not in q[len(pref):] and _pushes_to_caller(g.node, set(g.params)):
+                if any(isinstance(x, ast.Name) and x.id == g.name and isinstance(x.ctx, ast.Load) for x in walk_no_nested(v.node)):
+                    ctx.undecided('C14-R3', g, g.name, 'a local helper pushes conditions but is not (only) called as a plain statement')
     n = 0
-    for qn in ('Filter._airport_condition', 'Filter._country_condition', 'Filter._continent_condition',
-               'Filter._bounding_box_condition', 'Filter.to_sql'):
-        fi = fm.func(qn)
-        for t in walk_no_nested(fi.node):
-            if isinstance(t, ast.Tuple) and len(t.elts) == 2 and isinstance(t.ctx, ast.Load):
-                par = getattr(t, '_parent', None)
-                is_cond = (isinstance(par, ast.Call) and call_name(par).endswith('.append')) or \
-                    (isinstance(par, ast.List) and isinstance(getattr(par, '_parent', None), ast.Return))
-                if not is_cond:
-                    continue
-                text, params = t.elts
-                if isinstance(text, ast.Name) and text.id in fi.params:
-                    continue  # the generic `simple(expr, value)` helper, handled below
-                qc = _q_count(fi, text)
-                pc = _p_count(params)
-                n += 1
-                if qc is None or pc is None:
-                    ctx.undecided('C14-R3', fi, norm(t)[:80], 'cannot count placeholders / parameters symbolically')
-                ok = +qc == +pc
-                ctx.ob('C14-R3', fi, f'condition `{norm(text)[:50]}` with params `{norm(params)[:50]}`', ok,
-                       f'placeholders {dict(+qc)} = parameters {dict(+pc)}' if ok else
-                       f'{dict(+qc)} placeholders but {dict(+pc)} parameters: the statement cannot bind '
-                       '(or binds values to the wrong placeholders)', line=t.lineno)
-    fi = fm.func('Filter.to_sql')
-    for c in calls_in(fi.node):
-        if call_name(c) == 'simple' and len(c.args) == 2:
-            qc = _q_count(fi, c.args[0])
-            n += 1
-            ok = qc is not None and +qc == Counter({'1': 1})
-            ctx.ob('C14-R3', fi, f'simple({norm(c.args[0])}, {norm(c.args[1])})', ok,
-                   'one placeholder, one scalar parameter' if ok else 'placeholder count differs from 1', line=c.lineno)
-            col = re.search(r'(\w+) ([<>]=) \?', norm(c.args[0]))
-            attr = norm(c.args[1]).replace('self.', '')
+    sites = [(tv, t) for t in _pairs_into(tv, {conds})] + [(v, t) for v, ps in builders.values() for t in ps]
+    for fi, t in sites:
+        text, params = t.elts
+        qc = cnt.q(fi, text)
+        pc = cnt.p(fi, params)
+        n += 1
+        if qc is None or pc is None:
+            ctx.undecided('C14-R3', fi, norm(t)[:80], 'cannot count placeholders / parameters symbolically')
+        ok = +qc == +pc
+        ctx.ob('C14-R3', fi, f'condition `{norm(text)[:50]}` with params `{norm(params)[:50]}`', ok,
+               f'placeholders {dict(+qc)} = parameters {dict(+pc)}' if ok else
+               f'{dict(+qc)} placeholders but {dict(+pc)} parameters: the statement cannot bind '
+               '(or binds values to the wrong placeholders)', line=t.lineno)
+        # a scalar bound min_<c> / max_<c> constrains column <c> from the right side
+        pr = _resolve(fi, params)
+        if isinstance(pr, ast.Attribute) and norm(pr.value) == 'self' and pr.attr in numeric:
+            attr = pr.attr
+            col = re.search(r'(\w+)\s*(<=|>=|<|>|=|!=|<>)\s*\?', _text_constant(fi, text))
             okr = col is not None and ((attr.startswith('min_') and col.group(2) == '>=') or
-                                       (attr.startswith('max_') and col.group(2) == '<=')) and \
-                attr[4:].replace('seat_capacity', 'seat_capacity') == col.group(1)
+                                       (attr.startswith('max_') and col.group(2) == '<=')) and attr[4:] == col.group(1)
             ctx.ob('C14-R3', fi, f'{attr} ↔ {col.group(1) if col else "?"} {col.group(2) if col else ""}', bool(okr),
                    'min → >=, max → <= on the column of the same name' if okr else
-                   'range bound compares the wrong column or in the wrong direction', line=c.lineno)
+                   'range bound compares the wrong column or in the wrong direction', line=t.lineno)
     ctx.floor('C14-R3', n, 15, 'filter conditions')
+    # every numeric bound of the filter is turned into a condition
+    pushed = {norm(_resolve(fi, t.elts[1])) for fi, t in sites}
+    for a in sorted(numeric):
+        ok = f'self.{a}' in pushed
+        ctx.ob('C14-R3', tv, f'bound {a} becomes a condition', ok, 'pushed with its own placeholder' if ok else
+               f'no condition carries self.{a}: the bound is ignored', nontrivial=False)
     # flatten step in to_sql
-    rets = [r for r in walk_no_nested(fi.node) if isinstance(r, ast.Return) and isinstance(r.value, ast.Tuple)]
-    flat = [r for r in rets if 'for ps in params for p in' in norm(r.value)]
-    ok = bool(flat) and "' AND '.join(conds)" in norm(flat[0].value)
-    ctx.ob('C14-R3', fi, 'conditions AND-ed, parameters flattened in condition order', ok,
-           norm(flat[0].value)[:100] if ok else 'conditions are not joined with AND / parameters not flattened in order')
+    general = 0
+    for r, v in rets:
+        fl = _Flatten(tv, conds)
+        a, b = fl.val(v.elts[0]), _Flatten(tv, conds).val(v.elts[1])
+        what = f'return {norm(v)[:90]}'
+        if a == ('str', '') and b == 'empty':
+            facts = [f for t, pol, _ in guards_of(r) for at, p in conjuncts(t, pol) for f in [_emptiness_fact(at, p, conds)]]
+            ok = any(f < 0 for f in facts)
+            ctx.ob('C14-R3', tv, what, ok, f'only when `{conds}` is empty: no condition, no parameter' if ok else
+                   f'returns "no condition" although `{conds}` may hold conditions', line=r.lineno, nontrivial=False)
+            continue
+        bad = None
+        if isinstance(a, tuple) and a[0] == 'join' and a[2] == 'firsts':
+            if a[1].strip().upper() != 'AND' or a[1] == a[1].strip() or not a[1][0].isspace() or not a[1][-1].isspace():
+                bad = f'the condition texts are joined with {a[1]!r}, not with AND'
+        elif isinstance(a, tuple) and a[0] == 'bad':
+            bad = a[1]
+        else:
+            a = None
+        if isinstance(b, tuple) and b[0] == 'bad':
+            bad = bad or b[1]
+        elif b == 'seconds' or b == 'listified':
+            bad = bad or 'the per-condition parameter groups are returned without being flattened into one list'
+        elif b != 'flat':
+            b = None
+        if bad is None and (a is None or b is None):
+            ctx.undecided('C14-R3', tv, what, 'cannot decide that the texts are AND-ed and the parameters flattened in condition order')
+        general += 1
+        ctx.ob('C14-R3', tv, 'conditions AND-ed, parameters flattened in condition order', bad is None,
+               what if bad is None else bad, line=r.lineno)
+    ctx.floor('C14-R3/flatten', general, 1, 'return of (joined text, flat parameters)')
     # origin/destination column roles in the spatial helpers
-    for qn in ('Filter._airport_condition', 'Filter._country_condition', 'Filter._continent_condition',
-               'Filter._bounding_box_condition'):
-        f2 = fm.func(qn)
-        for t in walk_no_nested(f2.node):
-            if isinstance(t, ast.Tuple) and len(t.elts) == 2 and isinstance(t.ctx, ast.Load):
-                txt, par = norm(t.elts[0]), norm(t.elts[1])
-                for role in ('origin', 'destination'):
-                    if f'self.{role}_' in par:
-                        other = 'destination' if role == 'origin' else 'origin'
-                        ok = f'{{table}}{role} IN' in txt and f'{{table}}{other} IN' not in txt
-                        ctx.ob('C14-R3', f2, f'{role} filter constrains the {role} column', ok,
-                               'column matches the filter attribute' if ok else
-                               f'the {role}_* filter is applied to the {other} column', line=t.lineno)
+    for q, (f2, pairs) in sorted(builders.items()):
+        for t in pairs:
+            txt, par = norm(t.elts[0]), norm(_resolve(f2, t.elts[1]))
+            for role in ('origin', 'destination'):
+                if f'self.{role}_' in par:
+                    other = 'destination' if role == 'origin' else 'origin'
+                    ok = f'{{table}}{role} IN' in txt and f'{{table}}{other} IN' not in txt
+                    ctx.ob('C14-R3', f2, f'{role} filter constrains the {role} column', ok,
+                           'column matches the filter attribute' if ok else
+                           f'the {role}_* filter is applied to the {other} column', line=t.lineno)
     # query-level conditions: per block, '?' appended == params pushed
+    qcnt = _Count(prog)
     qm = prog.module(Q)
     pending = []
     for qn in ('QueryBase._common_conditions', 'Query.to_sql'):
@@ -324,7 +1376,7 @@ def rule_placeholders(ctx):
             und = False
             for x in blk:
                 if isinstance(x, ast.AugAssign):
-                    pc = _p_count(x.value)
+                    pc = qcnt.p(fq, x.value)
                     p += pc if pc else Counter()
                     und = und or pc is None
                     continue
@@ -334,7 +1386,7 @@ def rule_placeholders(ctx):
                     if isinstance(c.args[0], ast.Name) and c.args[0].id == 'cond':
                         q += Counter({'filter': 1})
                     else:
-                        qc = _q_count(fq, c.args[0])
+                        qc = qcnt.q(fq, c.args[0])
                         und = und or qc is None
                         q += qc or Counter()
                 elif cn.endswith('_params.append'):
@@ -343,7 +1395,7 @@ def rule_placeholders(ctx):
                     if norm(c.args[0]) == 'p':
                         p += Counter({'filter': 1})
                     else:
-                        pc = _p_count(c.args[0])
+                        pc = qcnt.p(fq, c.args[0])
                         und = und or pc is None
                         p += pc or Counter()
             if und:
@@ -357,6 +1409,16 @@ def rule_placeholders(ctx):
                     'its neighbours (e.g. the sample fraction to the day modulus)'), line=blk[0].lineno)
     for fq, what in pending:
         ctx.undecided('C14-R3', fq, what, 'cannot count symbolically')
+
+
+def _numeric_optionals(cls):
+    """fields annotated `int | None` / `float | None` (Optional[...]): one scalar or unset"""
+    out = set()
+    for f, ann in cls.all_fields().items():
+        a = norm(ann)
+        if 'None' in a and any(k in a for k in ('float', 'int')) and 'list' not in a and 'str' not in a:
+            out.add(f)
+    return out
 
 
 # ---------------------------------------------------------------- R4..R6 ---
@@ -499,63 +1561,92 @@ def rule_columns(ctx):
 
 
 # ---------------------------------------------------------------- R7 -----
+def _truth_atoms(t):
+    if isinstance(t, ast.BoolOp):
+        for v in t.values:
+            yield from _truth_atoms(v)
+    elif isinstance(t, ast.UnaryOp) and isinstance(t.op, ast.Not):
+        yield from _truth_atoms(t.operand)
+    else:
+        yield t
+
+
+def _truth_tested(fn):
+    """(atom, enclosing test) for every expression whose truth value decides something: tests of if / while /
+    conditional expressions / assert / comprehension filters, operands of `not`, and the operands of and/or that
+    are tested before the last one is taken"""
+    seen = set()
+    for x in walk_no_nested(fn):
+        tests = []
+        if isinstance(x, (ast.If, ast.While, ast.IfExp, ast.Assert)):
+            tests.append(x.test)
+        elif isinstance(x, ast.comprehension):
+            tests += x.ifs
+        elif isinstance(x, ast.BoolOp):
+            tests += x.values[:-1]
+        elif isinstance(x, ast.UnaryOp) and isinstance(x.op, ast.Not):
+            tests.append(x.operand)
+        elif isinstance(x, ast.Call) and call_name(x) == 'bool' and len(x.args) == 1:
+            tests.append(x.args[0])
+        for t in tests:
+            for a in _truth_atoms(t):
+                if id(a) not in seen:
+                    seen.add(id(a))
+                    yield a, t
+
+
 def rule_is_set(ctx):
     """"is this optional numeric set?" must be decided by `is (not) None`, never
     by truthiness: 0 is a legitimate bound (max_seat_capacity=0 selects all-cargo
-    flights), and a dropped bound silently selects everything."""
+    flights), and a dropped bound silently selects everything.  The tests are read on the expanded view, so the
+    value tested may reach the test through a table-driven loop, a comprehension filter, a local or a helper's
+    parameter."""
     prog = ctx.prog
     classes = [prog.cls(F, 'Filter')] + [c for c in prog.subclasses_of('QueryBase')]
     n = 0
     for cls in classes:
-        numeric = set()
-        for f, ann in cls.all_fields().items():
-            a = norm(ann)
-            if 'None' in a and any(k in a for k in ('float', 'int')) and 'list' not in a and 'str' not in a:
-                numeric.add(f)
+        numeric = _numeric_optionals(cls)
         if not numeric:
             continue
         fns = [f for f in cls.module.functions.values() if f.cls is cls]
         for fi in fns:
-            # parameters of (nested) helpers that receive such a field
+            view = _view(prog, fi)
+            # parameters of helpers (not merged into the view) that receive such a field
             tainted = {}
-            for c in calls_in(fi.node):
-                callee = resolve_call(prog, fi, c)
+            for c in calls_in(view.node):
+                callee = resolve_call(prog, view, c)
                 if callee is None:
                     continue
                 off = 1 if callee.params[:1] in (['self'], ['cls']) else 0
                 for i, a in enumerate(c.args):
+                    a = _resolve(view, a)
                     if isinstance(a, ast.Attribute) and norm(a.value) == 'self' and a.attr in numeric \
                             and i + off < len(callee.params):
                         tainted.setdefault(callee.qualname, {})[callee.params[i + off]] = a.attr
-            scopes = [(fi, {f'self.{x}': x for x in numeric})]
+            scopes = [(view, {f'self.{x}': x for x in numeric})]
             for q, prm in tainted.items():
                 callee = fi.module.functions.get(q)
                 if callee is not None:
                     scopes.append((callee, dict(prm)))
             for fn, subj in scopes:
-                for x in walk_no_nested(fn.node):
-                    tests = []
-                    if isinstance(x, (ast.If, ast.While, ast.IfExp)):
-                        tests.append(x.test)
-                    for t in tests:
-                        atoms = [t]
-                        if isinstance(t, ast.BoolOp):
-                            atoms = list(t.values)
-                        for a in atoms:
-                            neg = isinstance(a, ast.UnaryOp) and isinstance(a.op, ast.Not)
-                            core = a.operand if neg else a
-                            txt = norm(core)
-                            if txt in subj:
-                                n += 1
-                                ctx.ob('C14-R7', fn, f'`{norm(t)}` tests {subj[txt]} by truthiness', False,
-                                       f'the optional numeric `{subj[txt]}` counts as "not set" when it is 0: a bound of 0 '
-                                       '(e.g. max_seat_capacity=0) is silently dropped and the query selects everything',
-                                       line=t.lineno)
-                            elif isinstance(core, ast.Compare) and norm(core.left) in subj and \
-                                    isinstance(core.ops[0], (ast.Is, ast.IsNot)) and norm(core.comparators[0]) == 'None':
-                                n += 1
-                                ctx.ob('C14-R7', fn, f'`{norm(core)}`', True, 'identity test against None', line=core.lineno,
-                                       nontrivial=False)
+                def subject(e):
+                    txt = norm(_resolve(fn, e)) if isinstance(e, ast.Name) else norm(e)
+                    if isinstance(e, ast.Name) and norm(e) in subj:
+                        txt = norm(e)
+                    return subj.get(txt)
+                for a, t in _truth_tested(fn.node):
+                    s = subject(a)
+                    if s is not None:
+                        n += 1
+                        ctx.ob('C14-R7', fn, f'`{norm(t)}` tests {s} by truthiness', False,
+                               f'the optional numeric `{s}` counts as "not set" when it is 0: a bound of 0 '
+                               '(e.g. max_seat_capacity=0) is silently dropped and the query selects everything',
+                               line=t.lineno)
+                    elif isinstance(a, ast.Compare) and len(a.ops) == 1 and subject(a.left) is not None and \
+                            isinstance(a.ops[0], (ast.Is, ast.IsNot, ast.Eq, ast.NotEq)) and norm(a.comparators[0]) == 'None':
+                        n += 1
+                        ctx.ob('C14-R7', fn, f'`{norm(a)}`', True, 'compared with None itself', line=a.lineno,
+                               nontrivial=False)
     ctx.floor('C14-R7', n, 6, 'is-set tests of optional numeric fields')
 
 
